@@ -1047,19 +1047,21 @@ func faultAlphabet(thorough bool) []opDef {
 	return ops
 }
 
-// pushAlphabet: acting users `who`; with both users the lock/unlock commands are part of the alphabet, with one acting
-// user the lock tables come from the initial states.
-func pushAlphabet(thorough bool, who []int) []opDef {
+// pushAlphabet: acting users `who`; with both users acting the lock/unlock commands are part of the alphabet, with one
+// acting user the lock tables come from the initial states.
+func pushAlphabet(thorough bool, who []int, faults bool) []opDef {
 	var ops []opDef
 	for _, u := range who {
 		base := []opDef{mk(u, "edit-new", fP), mk(u, "edit-dup", fQ), mk(u, "edit-new", fR), mk(u, "commit", ""), mk(u, "merge", ""), mk(u, "push", "")}
 		if len(who) > 1 {
-			base = append(base, mk(u, "lock", fP), mk(u, "lock", fQ), mk(u, "unlock", fP))
-		}
-		if thorough {
+			base = []opDef{mk(u, "lock", fP), mk(u, "unlock", fP), mk(u, "edit-new", fP), mk(u, "commit", ""), mk(u, "merge", ""), mk(u, "push", "")}
+		} else if thorough {
 			base = append(base, mk(u, "edit-old", fP), mk(u, "locks-verify", ""))
 		}
 		ops = append(ops, base...)
+		if !faults {
+			continue
+		}
 		sts := []int{403, 404, 500}
 		if thorough {
 			sts = []int{403, 404, 500, 501}
@@ -1341,37 +1343,40 @@ func TestVerifC16(t *testing.T) {
 		return initState{Desc: strings.Replace(from.Desc, "no locks", desc, 1), Node: &n, RO: from.RO}
 	}
 	lk := func(u int, f string) opDef { return mk(u, "lock", f) }
-	iP1 := derive(iTrueOn, "p.dat locked by u1", lk(0, fP))
-	iP2 := derive(iTrueOn, "p.dat locked by u2", lk(1, fP))
-	iQ1 := derive(iTrueOn, "q.dat locked by u1", lk(0, fQ))
-	iQ2 := derive(iTrueOn, "q.dat locked by u2", lk(1, fQ))
 	iP1Q2 := derive(iTrueOn, "p.dat locked by u1, q.dat locked by u2", lk(0, fP), lk(1, fQ))
 	iP2Q1 := derive(iTrueOn, "p.dat locked by u2, q.dat locked by u1", lk(1, fP), lk(0, fQ))
-	iPQ1 := derive(iTrueOn, "p.dat and q.dat locked by u1", lk(0, fP), lk(0, fQ))
-	iPQ2 := derive(iTrueOn, "p.dat and q.dat locked by u2", lk(1, fP), lk(1, fQ))
 	iUnsetP1 := derive(iUnsetOn, "p.dat locked by u1", lk(0, fP))
 	iFalseP1 := derive(iFalseOn, "p.dat locked by u1", lk(0, fP))
+	var iP1, iP2, iQ1, iQ2, iPQ1, iPQ2 initState
+	if e.thorough {
+		iP1 = derive(iTrueOn, "p.dat locked by u1", lk(0, fP))
+		iP2 = derive(iTrueOn, "p.dat locked by u2", lk(1, fP))
+		iQ1 = derive(iTrueOn, "q.dat locked by u1", lk(0, fQ))
+		iQ2 = derive(iTrueOn, "q.dat locked by u2", lk(1, fQ))
+		iPQ1 = derive(iTrueOn, "p.dat and q.dat locked by u1", lk(0, fP), lk(0, fQ))
+		iPQ2 = derive(iTrueOn, "p.dat and q.dat locked by u2", lk(1, fP), lk(1, fQ))
+	}
 
 	var parts []partDef
 	if e.thorough {
 		parts = []partDef{
 			{Name: "locks", Inits: []initState{iTrueOn}, Ops: locksAlphabet(true, false), MaxDepth: 4, MaxDevs: 0, Share: 30, Sym: true},
-			{Name: "locks-faults", Inits: []initState{iTrueOn, iP1, iP1Q2}, Ops: faultAlphabet(true), MaxDepth: 3, MaxDevs: 2, Share: 20, Sym: true},
+			{Name: "locks-faults", Inits: []initState{iTrueOn, iP1, iP1Q2}, Ops: faultAlphabet(true), MaxDepth: 3, MaxDevs: 1, Share: 20, Sym: true},
 			{Name: "locks-readonly-off", Inits: []initState{iTrueOff}, Ops: locksAlphabet(false, false), MaxDepth: 3, MaxDevs: 0, Share: 5, Sym: true},
-			{Name: "push", Inits: []initState{iTrueOn, iP1, iP2, iQ1, iQ2, iP1Q2, iP2Q1, iPQ1, iPQ2}, Ops: pushAlphabet(true, []int{1}), MaxDepth: 4, MaxDevs: 1, Share: 30},
-			{Name: "push-two-users", Inits: []initState{iTrueOn}, Ops: pushAlphabet(false, []int{0, 1}), MaxDepth: 4, MaxDevs: 1, Share: 10, Sym: true},
-			{Name: "push-verify-unset-or-false", Inits: []initState{iUnsetP1, iFalseP1, iUnsetOn}, Ops: pushAlphabet(false, []int{1}), MaxDepth: 4, MaxDevs: 1, Share: 5},
+			{Name: "push", Inits: []initState{iTrueOn, iP1, iP2, iQ1, iQ2, iP1Q2, iP2Q1, iPQ1, iPQ2}, Ops: pushAlphabet(true, []int{1}, true), MaxDepth: 3, MaxDevs: 1, Share: 17},
+			{Name: "push-deep", Inits: []initState{iTrueOn, iP1Q2, iP2Q1}, Ops: pushAlphabet(true, []int{1}, false), MaxDepth: 5, MaxDevs: 0, Share: 17},
+			{Name: "push-two-users", Inits: []initState{iTrueOn}, Ops: pushAlphabet(true, []int{0, 1}, false), MaxDepth: 4, MaxDevs: 0, Share: 7, Sym: true},
+			{Name: "push-verify-unset-or-false", Inits: []initState{iUnsetP1, iFalseP1, iUnsetOn}, Ops: pushAlphabet(false, []int{1}, true), MaxDepth: 3, MaxDevs: 1, Share: 4},
 		}
 	} else {
 		parts = []partDef{
 			{Name: "locks", Inits: []initState{iTrueOn}, Ops: locksAlphabet(false, false), MaxDepth: 3, MaxDevs: 0, Share: 35, Sym: true},
-			{Name: "locks-faults", Inits: []initState{iTrueOn, iP1}, Ops: faultAlphabet(false), MaxDepth: 2, MaxDevs: 1, Share: 20, Sym: true},
+			{Name: "locks-faults", Inits: []initState{iTrueOn, iP1Q2}, Ops: faultAlphabet(false), MaxDepth: 2, MaxDevs: 1, Share: 20, Sym: true},
 			{Name: "locks-readonly-off", Inits: []initState{iTrueOff}, Ops: locksAlphabet(false, false), MaxDepth: 2, MaxDevs: 0, Share: 7, Sym: true},
-			{Name: "push", Inits: []initState{iTrueOn, iP1, iP2, iQ1}, Ops: pushAlphabet(false, []int{1}), MaxDepth: 3, MaxDevs: 1, Share: 33},
+			{Name: "push", Inits: []initState{iTrueOn, iP1Q2, iP2Q1}, Ops: pushAlphabet(false, []int{1}, true), MaxDepth: 3, MaxDevs: 1, Share: 33},
 			{Name: "push-verify-unset-or-false", Inits: []initState{iUnsetP1, iFalseP1}, Ops: pushMini(1), MaxDepth: 3, MaxDevs: 0, Share: 5},
 		}
 	}
-	_, _, _, _ = iQ2, iP2Q1, iPQ1, iPQ2
 
 	c.Rule = "multi-source BFS with canonical-state dedup over the real git-lfs binary and real git: two clones (users u1,u2; Basic-auth user = URL userinfo of lfs.url) of one bare remote and one fake LFS server " +
 		"with a multi-user lock table; files p.dat (lockable, LFS), q.dat (lockable, plain; modified by the local branch side), r.txt (not lockable). Every enabled operation of the scenario alphabet " +
